@@ -30,6 +30,29 @@ def sh(cmd, cwd=None, env=None, timeout=None, input=None, check=False):
     return p.returncode, p.stdout
 
 
+class _GoRun:
+    pass
+
+
+def go_run(d, env, timeout, errors="strict"):
+    """`go run main.go` in directory d with stderr (where Go's println writes) captured in a FILE and asynchronous
+    preemption off.  With a pipe, the Go runtime's print does a single write(2) and does not retry a short write; under
+    load (pipe full, SIGURG preemption signal arriving mid-write) a line longer than the pipe's atomic chunk came back
+    truncated at 4096+ bytes -- a false alarm of the REFERENCE side (seen with VERIF_SEED=2 in C14: a 8196-character
+    println line cut at 4100).  Regular files never give short writes."""
+    env = dict(env)
+    env["GODEBUG"] = (env.get("GODEBUG", "") + ",asyncpreemptoff=1").lstrip(",")
+    errp = os.path.join(d, "go-stderr.txt")
+    with open(errp, "wb") as ef:
+        p = subprocess.run(["go", "run", "main.go"], cwd=d, stdout=subprocess.PIPE, stderr=ef, timeout=timeout, env=env)
+    r = _GoRun()
+    r.returncode = p.returncode
+    r.stdout = p.stdout.decode("utf8", errors if errors != "strict" else "replace")
+    with open(errp, "rb") as ef:
+        r.stderr = ef.read().decode("utf8", "replace")
+    return r
+
+
 class Lock:
     def __init__(self, name):
         os.makedirs(BUILD, exist_ok=True)
